@@ -387,4 +387,68 @@ theorem node_decorated_outputs (b fb r : Bag) (h : b.loopbackWith fb = .ok r) :
   rw [ho]
   exact reverse_chain_bag_outputs bi bo inh c _ _ _ _ _ _ hrev n hn
 
+/-- `node_decorated_layer_input` with the position of the clone: it is a fresh node (at or above the counter of the state), so it is no input of
+the decorated graph as soon as the inputs lie below the counter (which `Bag.WF` of the state says) -/
+theorem node_decorated_layer_input_fresh (b fb r : Bag) (h : b.loopbackWith fb = .ok r) :
+    ∃ state es, connectBags b fb = .ok state ∧ r.edges = state.edges ++ es ∧ r.inputs = state.inputs ∧
+      ∀ (bi bo : List BNode) (inh inhf : NameSet) (n o : BNode),
+        state.ctx = .chain (.bag bi bo inh) (.bag [] [] inhf) → (names state.outputs).Nodup →
+        n ∈ bi → o ∈ state.outputs → o.name = n.name → inhf.mem n.name = true →
+        (∀ m ∈ state.inputs, m.id < state.next) → n ∉ r.inputs → ¬ Down r.edges (es.map (·.out)) o → ∀ t, BDen r n t ↔ BDen state o t := by
+  obtain ⟨state, es, hst, he, hall⟩ := node_decorated_input_is_f_output b fb r h
+  obtain ⟨state', _, _, _, _, hst', _, _, _, hin⟩ := loopback_shape b fb r h
+  have : state' = state := by rw [hst] at hst'; injection hst' with h'; exact h'.symm
+  subst this
+  refine ⟨state', es, hst, he, hin, ?_⟩
+  intro bi bo inh inhf n o hctx hnd hn ho hname hinh hlt hnr hd t
+  obtain ⟨c, hcn, hpass⟩ := bag_pass_exists [] [] inhf state'.outputs state'.next o ho (by rw [hname]; exact hinh) (by simp [names])
+  have hrev := fn_ctx_reverse inhf state'.outputs state'.next hnd
+  cases hpass with
+  | bag hc hedge =>
+    have hcl_names := cloneEdges_names false (state'.outputs.filter fun m => inhf.mem m.name && !(names []).contains m.name) state'.next
+    have hnd_cl : (names (cloneEdges false (state'.outputs.filter fun m => inhf.mem m.name && !(names []).contains m.name) state'.next).1).Nodup := by
+      rw [hcl_names, names_filter state'.outputs fun x => inhf.mem x && !(names ([] : List BNode)).contains x]
+      exact List.Nodup.sublist List.filter_sublist hnd
+    have hby : byName (cloneEdges false (state'.outputs.filter fun m => inhf.mem m.name && !(names []).contains m.name) state'.next).1 n.name = some c := by
+      have := byName_of_mem (names_inj_of_nodup hnd_cl) hc
+      rw [hcn.trans hname] at this
+      exact this
+    have hfresh : state'.next ≤ c.id := ((cloneEdges_spec false _ state'.next).2.2.2.1 c hc).1
+    have hcr : c ∉ r.inputs := by
+      rw [hin]
+      intro hmem
+      have := hlt c hmem
+      omega
+    refine hall n c o ?_ ?_ hnr hcr hd t
+    · rw [hctx]; exact .earlier hrev (.bag hn hby)
+    · rw [hctx]; exact .later (.bag hc hedge)
+
+/-- **Node level: one layer with a one-argument inverse, in closed form.**  `layer._decorate(x, x)(f)`: if the layer's inverse field `x` is the edge
+`e` over its backward input `n` alone, and `f`'s output `x` computes `t` in `pipeline >> f`, then the decorated graph exposes `x` computing
+`inverse(t)` - forward through the layer, then `f`, then the inverse - for every well-formed pipeline, every `f`, every input. -/
+theorem node_decorated_single_inverse (b fb r : Bag) (h : b.loopbackWith fb = .ok r) :
+    ∃ state es, connectBags b fb = .ok state ∧ r.edges = state.edges ++ es ∧
+      ∀ (bi bo : List BNode) (inh inhf : NameSet) (e : BEdge) (n o : BNode) (t : BTerm),
+        state.ctx = .chain (.bag bi bo inh) (.bag [] [] inhf) → (names state.outputs).Nodup → (∀ m ∈ state.inputs, m.id < state.next) →
+        e ∈ state.edges → e.edge ≠ .identity → e.ins = [n] → e.out ∈ bo → e.out ∉ state.inputs →
+        n ∈ bi → n ∉ state.inputs → o ∈ state.outputs → o.name = n.name → inhf.mem n.name = true →
+        ¬ Down r.edges (es.map (·.out)) o → BDen state o t →
+        r.Field e.out.name (.node e.edge [t]) := by
+  obtain ⟨state, es, hst, he, hin, hinput⟩ := node_decorated_layer_input_fresh b fb r h
+  obtain ⟨state2, es2, hst2, he2, hfield⟩ := node_decorated_field b fb r h
+  obtain ⟨state3, hst3, houts⟩ := node_decorated_outputs b fb r h
+  have e2 : state2 = state := by rw [hst] at hst2; injection hst2 with h'; exact h'.symm
+  have e3 : state3 = state := by rw [hst] at hst3; injection hst3 with h'; exact h'.symm
+  subst e2; subst e3
+  refine ⟨state3, es, hst, he, ?_⟩
+  intro bi bo inh inhf e n o t hctx hnd hlt hmem hk hins hout hoi hn hni ho hname hinh hd hden
+  have hnr : n ∉ r.inputs := by rw [hin]; exact hni
+  have hbn : BDen r n t := (hinput bi bo inh inhf n o hctx hnd hn ho hname hinh hlt hnr hd t).2 hden
+  refine hfield e [t] hmem hk (houts bi bo inh _ hctx e.out hout) (by rw [hin]; exact hoi) (by rw [hins]; rfl) ?_
+  intro q hq
+  rw [hins] at hq
+  simp only [List.zip_cons_cons, List.zip_nil_right, List.mem_singleton] at hq
+  subst hq
+  exact hbn
+
 end CM.C10
